@@ -62,6 +62,16 @@ type ColNullable[T any] struct {
 	Values ColumnOf[T]
 }
 
+// Infer ensures Inferable column propagation.
+func (c *ColNullable[T]) Infer(t ColumnType) error {
+	if v, ok := c.Values.(Inferable); ok {
+		if err := v.Infer(t.Elem()); err != nil {
+			return errors.Wrap(err, "infer values")
+		}
+	}
+	return nil
+}
+
 func (c *ColNullable[T]) adoptType(t ColumnType) error {
 	return adoptType(c.Values, t.Elem())
 }
